@@ -155,7 +155,7 @@ theorem clsPair_value (p : PRecord) : (clsPair p).map (·.2) = p.cls.map PCode.v
 /-- the text of a record from the gap before the RDATA on -/
 def rdataPart (p : PRecord) (r : List UInt8) : List UInt8 :=
   gapText (gapAt p.gaps 0) ++ (rdataText (fun i => gapAt p.gaps (i + 1)) p.rdata ++
-    (tailText p.tail p.comment p.crlf ++ r))
+    (tailText p.tail p.comment p.eol ++ r))
 
 theorem renderRecord_eq (p : PRecord) (r : List UInt8) :
     renderRecord p ++ r =
@@ -252,10 +252,11 @@ theorem parseLine_named (ctx : Ctx) (T : List UInt8) (hT : Starts T) (h36 : T.he
     record, parses to exactly that record, at the line where it starts; the parser's context
     afterwards is the denoted one. -/
 theorem parseLine_record (ctx : Ctx) (hctx : CtxWF ctx) (p : PRecord) (hwf : WFRecord p) (line : Nat)
-    (r : List UInt8) (sr : SRecord) (sc' : SCtx) (hden : denoteRecord validB (toSCtx ctx) line p = some (sr, sc')) :
+    (r : List UInt8) (he : p.eol = .eof → r = []) (sr : SRecord) (sc' : SCtx)
+    (hden : denoteRecord validB (toSCtx ctx) line p = some (sr, sc')) :
     ∃ ctx', parseLine ctx ⟨renderRecord p ++ r, line, false⟩ =
         .ok ((some (.record sr.line ⟨sr.owner, sr.ttl, sr.cls, sr.ty, sr.rdata⟩), ctx'),
-             ⟨r, line + recordLines p + 1, false⟩) ∧
+             ⟨r, line + recordLines p + eolLines p.eol, false⟩) ∧
       toSCtx ctx' = sc' := by
   obtain ⟨hown, httl, hcls, ⟨hty, h10, h41, h250⟩, hrdwf, ⟨q1, q2, q3, S, h0, hsame, hA, hB, hS0, hG, hT⟩⟩ := hwf
   obtain ⟨owner, tv, cv, rd, howner, htv, hcv, hrdw, hkind, hgen, rfl, rfl⟩ := denoteRecord_some hden
@@ -292,8 +293,8 @@ theorem parseLine_record (ctx : Ctx) (hctx : CtxWF ctx) (p : PRecord) (hwf : WFR
   have hR0 : atFieldEnd (rdataPart p r) = true := (hG 0 (by omega)).atEnd _
   have hrd : ∀ l, parseRdata ctx cv p.ty.value ⟨rdataPart p r, l, tcEnd q1 q2 q3 p.ttl (clsPair p)⟩ =
       .ok (rd, ⟨r, l + (gapLines (gapAt p.gaps 0) + rdataLines (fun i => gapAt p.gaps (i + 1)) p.rdata +
-        gapLines p.tail) + 1, false⟩) := fun l => by
-    have := parseRdata_render ctx hctx cv p.ty.value h41 h250 (gapAt p.gaps) S p.tail p.comment p.crlf r p.rdata hG hT
+        gapLines p.tail) + eolLines p.eol, false⟩) := fun l => by
+    have := parseRdata_render ctx hctx cv p.ty.value h41 h250 (gapAt p.gaps) S p.tail p.comment p.eol r he p.rdata hG hT
       hrdwf hkind rd hrdw (fun g hg => validB_ok (hgen g hg)) l
     rw [hS0] at this
     unfold rdataPart
@@ -362,62 +363,76 @@ theorem parseLine_record (ctx : Ctx) (hctx : CtxWF ctx) (p : PRecord) (hwf : WFR
 
 /-! ### blank lines and directives -/
 
-theorem parseLine_blank (ctx : Ctx) (ws cmt : List UInt8) (crlf : Bool) (r : List UInt8)
-    (hws : ∀ x ∈ ws, isWs x = true) (hc : commentOK cmt) (line : Nat) :
-    parseLine ctx ⟨ws ++ (cmt ++ (eolText crlf ++ r)), line, false⟩ = .ok ((none, ctx), ⟨r, line + 1, false⟩) := by
-  obtain ⟨e0, t0, he0, he0ws, he036⟩ := eol_head cmt hc crlf r
+theorem dropWhile_ws' (ws X : List UInt8) (hws : ∀ x ∈ ws, isWs x = true)
+    (hX : X = [] ∨ ∃ c t, X = c :: t ∧ isWs c = false) : (ws ++ X).dropWhile isWs = X := by
+  rcases hX with rfl | ⟨c, t, rfl, hc⟩
+  · induction ws with
+    | nil => rfl
+    | cons x ws ih =>
+      simp only [List.cons_append, List.dropWhile_cons, hws x (by simp), ↓reduceIte]
+      exact ih (fun y hy => hws y (by simp [hy]))
+  · exact dropWhile_ws ws hws c t hc
+
+theorem parseLine_blank (ctx : Ctx) (ws cmt : List UInt8) (eol : PEol) (r : List UInt8)
+    (hws : ∀ x ∈ ws, isWs x = true) (hc : commentOK cmt) (he : eol = .eof → r = [])
+    (hne : ws ++ (cmt ++ (lineEnd eol ++ r)) ≠ []) (line : Nat) :
+    parseLine ctx ⟨ws ++ (cmt ++ (lineEnd eol ++ r)), line, false⟩ =
+      .ok ((none, ctx), ⟨r, line + eolLines eol, false⟩) := by
+  have hhead := lineEnd_head cmt hc eol r he
+  have hX : cmt ++ (lineEnd eol ++ r) = [] ∨ ∃ c t, cmt ++ (lineEnd eol ++ r) = c :: t ∧ isWs c = false := by
+    rcases hhead with h | ⟨c, t, h, hw, _⟩
+    · exact .inl h
+    · exact .inr ⟨c, t, h, hw⟩
   -- the first octet of the line: a blank, `;`, or the line end — never `$`
-  obtain ⟨c, t, hct, hc36⟩ : ∃ c t, ws ++ (cmt ++ (eolText crlf ++ r)) = c :: t ∧ (c == 36) = false := by
+  obtain ⟨c, t, hct, hc36⟩ : ∃ c t, ws ++ (cmt ++ (lineEnd eol ++ r)) = c :: t ∧ (c == 36) = false := by
     cases ws with
     | cons x ws' =>
       have hx := hws x (by simp)
       refine ⟨x, _, rfl, ?_⟩
       simp only [isWs, Bool.or_eq_true, beq_iff_eq] at hx
       rcases hx with rfl | rfl <;> decide
-    | nil => exact ⟨e0, t0, by simpa using he0, he036⟩
+    | nil =>
+      rcases hhead with h | ⟨c, t, h, _, h36⟩
+      · simp [h] at hne
+      · exact ⟨c, t, by simpa using h, h36⟩
   unfold parseLine
   simp only [hct, hc36, Bool.false_eq_true, ↓reduceIte]
   rw [parseRecordOrEmpty_eq, ← hct]
-  have hdrop : (ws ++ (cmt ++ (eolText crlf ++ r))).dropWhile isWs = cmt ++ (eolText crlf ++ r) := by
-    rw [he0]; exact dropWhile_ws ws hws e0 t0 he0ws
-  have hsk : (skipWhitespace ⟨ws ++ (cmt ++ (eolText crlf ++ r)), line, false⟩).2 =
-      ⟨cmt ++ (eolText crlf ++ r), line, false⟩ := by
+  have hdrop := dropWhile_ws' ws _ hws hX
+  have hsk : (skipWhitespace ⟨ws ++ (cmt ++ (lineEnd eol ++ r)), line, false⟩).2 =
+      ⟨cmt ++ (lineEnd eol ++ r), line, false⟩ := by
     unfold skipWhitespace
     rw [hct]; simp only; rw [← hct, hdrop]
   rw [hsk]
-  have := fieldOrEol_eolG [] cmt (by simp) hc crlf r line
+  have := fieldOrEol_eolG [] cmt (by simp) hc eol r he line
   simp only [List.nil_append] at this
   simp only [this, beq_self_eq_true, ↓reduceIte, pure, P.pure]
 
 theorem origin_bytes : "$ORIGIN".toUTF8.toList = [36, 79, 82, 73, 71, 73, 78] := by decide +kernel
 theorem ttl_bytes : "$TTL".toUTF8.toList = [36, 84, 84, 76] := by decide +kernel
 
+/-- a directive keyword at the start of a line, followed by a field end, is recognised -/
+theorem expectFieldCI_self (kw X : List UInt8) (hX : atFieldEnd X = true) (line : Nat) (p : Bool) :
+    expectFieldCI kw ⟨kw ++ X, line, p⟩ = (true, ⟨X, line, p⟩) := by
+  unfold expectFieldCI expectFieldImpl
+  simp [eqIgnoreCase, hX]
+
+theorem include_bytes : "$INCLUDE".toUTF8.toList = [36, 73, 78, 67, 76, 85, 68, 69] := by decide +kernel
+
 /-- `$ORIGIN <absolute name>` sets the origin -/
-theorem parseLine_origin (ctx : Ctx) (ls : List PLabel) (hls : WFName (.abs ls)) (sep ws cmt : List UInt8) (crlf : Bool) (r : List UInt8)
-    (hne : sep ≠ []) (hsep : ∀ x ∈ sep, isWs x = true) (hws : ∀ x ∈ ws, isWs x = true) (hc : commentOK cmt)
-    (line : Nat) :
-    parseLine ctx ⟨[36, 79, 82, 73, 71, 73, 78] ++ (sep ++ (renderAbsName ls ++ (ws ++ (cmt ++ (eolText crlf ++ r))))), line, false⟩ =
+theorem parseLine_origin (ctx : Ctx) (ls : List PLabel) (hls : WFName (.abs ls)) (g1 : PGap) (q1 : Bool)
+    (h1 : GapOK g1 false q1) (tg : PGap) (cmt : List UInt8) (hT : TailOK tg cmt q1) (eol : PEol) (r : List UInt8)
+    (he : eol = .eof → r = []) (line : Nat) :
+    parseLine ctx ⟨[36, 79, 82, 73, 71, 73, 78] ++ (gapText g1 ++ (renderAbsName ls ++ (tailText tg cmt eol ++ r))), line, false⟩ =
       .ok ((none, { ctx with origin := some (wireName (ls.map labelOctets)) }),
-           ⟨r, line + labelLines ls + 1, false⟩) := by
+           ⟨r, line + gapLines g1 + labelLines ls + gapLines tg + eolLines eol, false⟩) := by
   obtain ⟨lne, lforms, llabels, ltotal⟩ := hls
-  obtain ⟨l, ls', rfl⟩ : ∃ l ls', ls = l :: ls' := by
-    cases ls with
-    | nil => exact absurd rfl lne
-    | cons l ls' => exact ⟨l, ls', rfl⟩
-  have hlne : l ≠ [] := label_nonempty (llabels (labelOctets l) (by simp)).1
-  obtain ⟨c0, t0, hct0, _, hc0⟩ := renderLabel_head hlne (lforms l (by simp))
-  have habsT : renderAbsName (l :: ls') = c0 :: (t0 ++ 46 :: (ls'.flatMap fun l => renderLabel l ++ [46])) := by
-    simp [renderAbsName, hct0]
-  have hEnd := atFieldEnd_eolG ws cmt hws hc crlf r
-  have hname := parseName_abs ctx.origin (l :: ls') lne lforms llabels ltotal _ hEnd line false
+  have hEnd := atFieldEnd_tail tg cmt q1 hT eol r he
+  have hname := parseName_abs ctx.origin ls lne lforms llabels ltotal _ hEnd (line + gapLines g1) q1
   rw [nameNewlines_eq] at hname
-  have hexp : expectFieldCI [36, 79, 82, 73, 71, 73, 78]
-      ⟨[36, 79, 82, 73, 71, 73, 78] ++ (sep ++ (renderAbsName (l :: ls') ++ (ws ++ (cmt ++ (eolText crlf ++ r))))), line, false⟩ =
-      (true, ⟨sep ++ (renderAbsName (l :: ls') ++ (ws ++ (cmt ++ (eolText crlf ++ r)))), line, false⟩) := by
-    unfold expectFieldCI expectFieldImpl
-    simp [eqIgnoreCase, atFieldEnd_sep sep _ hne hsep]
-  have hskip := skipToNextField_gap .ExpectedName sep hsep c0
-    (t0 ++ 46 :: (ls'.flatMap fun l => renderLabel l ++ [46]) ++ (ws ++ (cmt ++ (eolText crlf ++ r)))) hc0 line false
+  have hexp := expectFieldCI_self [36, 79, 82, 73, 71, 73, 78] _ (h1.atEnd (renderAbsName ls ++ (tailText tg cmt eol ++ r)))
+    line false
+  have hskip := h1.skip .ExpectedName _ ((abs_head lne lforms llabels).append (tailText tg cmt eol ++ r)) line
   unfold parseLine
   simp only [List.cons_append, List.nil_append, beq_self_eq_true, ↓reduceIte]
   unfold parseDirective
@@ -425,36 +440,30 @@ theorem parseLine_origin (ctx : Ctx) (ls : List PLabel) (hls : WFName (.abs ls))
   simp only [List.cons_append, List.nil_append] at hexp
   simp only [hexp, ↓reduceIte]
   unfold parseOriginDirective
-  rw [habsT] at hname ⊢
-  simp only [List.cons_append, List.append_assoc] at hskip hname ⊢
-  simp only [bind, P.bind, hskip, pName, hname, expectEol_eolG ws cmt hws hc crlf r, pure, P.pure]
+  simp only [bind, P.bind, hskip, pName, hname, expectEol_tail tg cmt q1 hT eol r he, pure, P.pure]
+
+theorem expectFieldCI_origin_ttl (Y : List UInt8) (line : Nat) (p : Bool) :
+    expectFieldCI [36, 79, 82, 73, 71, 73, 78] ⟨36 :: 84 :: 84 :: 76 :: Y, line, p⟩ =
+      (false, ⟨36 :: 84 :: 84 :: 76 :: Y, line, p⟩) := by
+  have hcmp : eqIgnoreCase (List.take 7 (36 :: 84 :: 84 :: 76 :: Y)) [36, 79, 82, 73, 71, 73, 78] = false := by
+    simp [eqIgnoreCase, lowerU8]
+  unfold expectFieldCI expectFieldImpl
+  split
+  · rfl
+  · simp only [show ([36, 79, 82, 73, 71, 73, 78] : List UInt8).length = 7 from rfl, hcmp, Bool.false_and,
+      Bool.false_eq_true, ↓reduceIte]
 
 /-- `$TTL <decimal>` sets the default TTL -/
-theorem parseLine_ttl (ctx : Ctx) (n : Nat) (hn : n ≤ 4294967295) (sep ws cmt : List UInt8) (crlf : Bool) (r : List UInt8)
-    (hne : sep ≠ []) (hsep : ∀ x ∈ sep, isWs x = true) (hws : ∀ x ∈ ws, isWs x = true) (hc : commentOK cmt)
-    (line : Nat) :
-    parseLine ctx ⟨[36, 84, 84, 76] ++ (sep ++ (decimal n ++ (ws ++ (cmt ++ (eolText crlf ++ r))))), line, false⟩ =
-      .ok ((none, { ctx with defaultTtl := some (ttlFrom n) }), ⟨r, line + 1, false⟩) := by
-  obtain ⟨d, ds, hd, hdstart⟩ := decimal_head n
-  have hEnd := atFieldEnd_eolG ws cmt hws hc crlf r
-  have hcmp : ∀ X : List UInt8, eqIgnoreCase (List.take 7 (36 :: 84 :: 84 :: 76 :: X)) [36, 79, 82, 73, 71, 73, 78] = false := by
-    intro X; simp [eqIgnoreCase, lowerU8]
-  have hnot : (expectFieldCI [36, 79, 82, 73, 71, 73, 78]
-      ⟨[36, 84, 84, 76] ++ (sep ++ (decimal n ++ (ws ++ (cmt ++ (eolText crlf ++ r))))), line, false⟩) =
-      (false, ⟨[36, 84, 84, 76] ++ (sep ++ (decimal n ++ (ws ++ (cmt ++ (eolText crlf ++ r))))), line, false⟩) := by
-    unfold expectFieldCI expectFieldImpl
-    simp only [List.cons_append, List.nil_append]
-    split
-    · rfl
-    · simp only [show ([36, 79, 82, 73, 71, 73, 78] : List UInt8).length = 7 from rfl, hcmp, Bool.false_and,
-        Bool.false_eq_true, ↓reduceIte]
-  have hexp : expectFieldCI [36, 84, 84, 76]
-      ⟨[36, 84, 84, 76] ++ (sep ++ (decimal n ++ (ws ++ (cmt ++ (eolText crlf ++ r))))), line, false⟩ =
-      (true, ⟨sep ++ (decimal n ++ (ws ++ (cmt ++ (eolText crlf ++ r)))), line, false⟩) := by
-    unfold expectFieldCI expectFieldImpl
-    simp [eqIgnoreCase, atFieldEnd_sep sep _ hne hsep]
-  have hskip := skipToNextField_gap .ExpectedTtl sep hsep d (ds ++ (ws ++ (cmt ++ (eolText crlf ++ r)))) hdstart line false
-  have hread := readField_decimal 4294967295 n hn (by omega) .InvalidTtl _ hEnd line false
+theorem parseLine_ttl (ctx : Ctx) (n : Nat) (hn : n ≤ 4294967295) (g1 : PGap) (q1 : Bool)
+    (h1 : GapOK g1 false q1) (tg : PGap) (cmt : List UInt8) (hT : TailOK tg cmt q1) (eol : PEol) (r : List UInt8)
+    (he : eol = .eof → r = []) (line : Nat) :
+    parseLine ctx ⟨[36, 84, 84, 76] ++ (gapText g1 ++ (decimal n ++ (tailText tg cmt eol ++ r))), line, false⟩ =
+      .ok ((none, { ctx with defaultTtl := some (ttlFrom n) }), ⟨r, line + gapLines g1 + gapLines tg + eolLines eol, false⟩) := by
+  have hEnd := atFieldEnd_tail tg cmt q1 hT eol r he
+  have hnot := expectFieldCI_origin_ttl (gapText g1 ++ (decimal n ++ (tailText tg cmt eol ++ r))) line false
+  have hexp := expectFieldCI_self [36, 84, 84, 76] _ (h1.atEnd (decimal n ++ (tailText tg cmt eol ++ r))) line false
+  have hskip := h1.skip .ExpectedTtl _ ((starts_decimal n).append (tailText tg cmt eol ++ r)) line
+  have hread := readField_decimal 4294967295 n hn (by omega) .InvalidTtl _ hEnd (line + gapLines g1) q1
   unfold parseLine
   simp only [List.cons_append, List.nil_append, beq_self_eq_true, ↓reduceIte]
   unfold parseDirective
@@ -463,12 +472,8 @@ theorem parseLine_ttl (ctx : Ctx) (n : Nat) (hn : n ≤ 4294967295) (sep ws cmt 
   simp only [hnot, Bool.false_eq_true, ↓reduceIte]
   simp only [bind, P.bind, liftB, hexp, ↓reduceIte]
   unfold parseTtlDirective
-  rw [hd] at hread ⊢
-  simp only [List.cons_append, List.append_assoc] at hskip hread ⊢
   simp only [bind, P.bind, hskip, show parseU32 = parseUInt 4294967295 from rfl, hread,
-    expectEol_eolG ws cmt hws hc crlf r, pure, P.pure]
-
-theorem include_bytes : "$INCLUDE".toUTF8.toList = [36, 73, 78, 67, 76, 85, 68, 69] := by decide +kernel
+    expectEol_tail tg cmt q1 hT eol r he, pure, P.pure]
 
 /-- what the writer of an include path must respect -/
 structure WFPath (s : PString) : Prop where
@@ -477,18 +482,19 @@ structure WFPath (s : PString) : Prop where
   ne : s.quoted = false → s.octets ≠ []
 
 /-- `$INCLUDE <path> [<origin>]` yields the include request; the context is unchanged.  `X` is
-    what follows the path: the end of the line, or blanks and the origin -/
-theorem parseLine_incl (ctx : Ctx) (path : PString) (hp : WFPath path) (sep : List UInt8) (hne : sep ≠ [])
-    (hsep : ∀ x ∈ sep, isWs x = true) (X : List UInt8) (hX : atFieldEnd X = true) (line : Nat)
+    what follows the path: the end of the line, or a gap and the origin -/
+theorem parseLine_incl (ctx : Ctx) (path : PString) (hp : WFPath path) (g1 : PGap) (q1 : Bool)
+    (h1 : GapOK g1 false q1) (X : List UInt8) (hX : atFieldEnd X = true) (line : Nat)
     (o : Option (List UInt8)) (r : List UInt8) (line' : Nat)
     (hrest : (do
         if (← skipToNextFieldOrThroughEol) == .Eol then pure (Item.incl line (stringOctets path) ctx.origin)
         else
           let origin ← pName ctx
           expectEol
-          pure (Item.incl line (stringOctets path) (some origin)) : P Item) ⟨X, line + stringLines path, false⟩ =
+          pure (Item.incl line (stringOctets path) (some origin)) : P Item)
+        ⟨X, line + gapLines g1 + stringLines path, q1⟩ =
       .ok (.incl line (stringOctets path) o, ⟨r, line', false⟩)) :
-    parseLine ctx ⟨[36, 73, 78, 67, 76, 85, 68, 69] ++ (sep ++ (stringText path ++ X)), line, false⟩ =
+    parseLine ctx ⟨[36, 73, 78, 67, 76, 85, 68, 69] ++ (gapText g1 ++ (stringText path ++ X)), line, false⟩ =
       .ok ((some (.incl line (stringOctets path) o), ctx), ⟨r, line', false⟩) := by
   have hcmp1 : ∀ Y : List UInt8, eqIgnoreCase (List.take 7 (36 :: 73 :: 78 :: 67 :: 76 :: 85 :: 68 :: 69 :: Y))
       [36, 79, 82, 73, 71, 73, 78] = false := by
@@ -514,60 +520,51 @@ theorem parseLine_incl (ctx : Ctx) (path : PString) (hp : WFPath path) (sep : Li
     · rfl
     · simp only [show ([36, 84, 84, 76] : List UInt8).length = 4 from rfl, hcmp2, Bool.false_and,
         Bool.false_eq_true, ↓reduceIte]
-  have hexp : expectFieldCI [36, 73, 78, 67, 76, 85, 68, 69]
-      ⟨36 :: 73 :: 78 :: 67 :: 76 :: 85 :: 68 :: 69 :: (sep ++ (stringText path ++ X)), line, false⟩ =
-      (true, ⟨sep ++ (stringText path ++ X), line, false⟩) := by
-    unfold expectFieldCI expectFieldImpl
-    simp [eqIgnoreCase, atFieldEnd_sep sep _ hne hsep]
-  have hstarts := (stringText_starts_of path hp.forms hp.ne).append X
-  obtain ⟨c, t, hct, hcs⟩ := hstarts
-  have hskip := skipToNextField_gap .ExpectedIncludePath sep hsep c t hcs line false
+  have hexp := expectFieldCI_self [36, 73, 78, 67, 76, 85, 68, 69] _ (h1.atEnd (stringText path ++ X)) line false
+  have hskip := h1.skip .ExpectedIncludePath _ ((stringText_starts_of path hp.forms hp.ne).append X) line
   have hpath := parseString_render Gen.INCLUDE_PATH_MAX .IncludePathTooLong .EofInQuotedIncludePath path hp.forms
-    (by simpa [Gen.INCLUDE_PATH_MAX] using hp.len) hp.ne X hX line false
+    (by simpa [Gen.INCLUDE_PATH_MAX] using hp.len) hp.ne X hX (line + gapLines g1) q1
   unfold parseLine
   simp only [List.cons_append, List.nil_append, beq_self_eq_true, ↓reduceIte]
   unfold parseDirective
+  simp only [List.cons_append, List.nil_append] at hexp
   simp only [bind, P.bind, liftB, origin_bytes, ttl_bytes, include_bytes, hnot1, hnot2, Bool.false_eq_true, ↓reduceIte,
     hexp]
   unfold parseIncludeDirective parseIncludePath
-  simp only [bind, P.bind, getLine, hct, hskip]
-  rw [← hct, hpath]
+  simp only [bind, P.bind, getLine, hskip, hpath]
   simp only [bind, P.bind, pure, P.pure] at hrest ⊢
   rw [hrest]
 
 /-- the rest of an `$INCLUDE` line without origin -/
-theorem incl_rest_plain (ctx : Ctx) (line0 : Nat) (path : List UInt8) (ws cmt : List UInt8) (crlf : Bool)
-    (r : List UInt8) (hws : ∀ x ∈ ws, isWs x = true) (hc : commentOK cmt) (line : Nat) :
+theorem incl_rest_plain (ctx : Ctx) (line0 : Nat) (path : List UInt8) (tg : PGap) (cmt : List UInt8) (q1 : Bool)
+    (hT : TailOK tg cmt q1) (eol : PEol) (r : List UInt8) (he : eol = .eof → r = []) (line : Nat) :
     (do
         if (← skipToNextFieldOrThroughEol) == .Eol then pure (Item.incl line0 path ctx.origin)
         else
           let origin ← pName ctx
           expectEol
-          pure (Item.incl line0 path (some origin)) : P Item) ⟨ws ++ (cmt ++ (eolText crlf ++ r)), line, false⟩ =
-      .ok (.incl line0 path ctx.origin, ⟨r, line + 1, false⟩) := by
-  simp only [bind, P.bind, skipToNextFieldOrThroughEol, fieldOrEol_eolG ws cmt hws hc crlf r line,
+          pure (Item.incl line0 path (some origin)) : P Item) ⟨tailText tg cmt eol ++ r, line, q1⟩ =
+      .ok (.incl line0 path ctx.origin, ⟨r, line + gapLines tg + eolLines eol, false⟩) := by
+  simp only [bind, P.bind, skipToNextFieldOrThroughEol, fieldOrEol_tail tg cmt q1 hT eol r he line,
     beq_self_eq_true, ↓reduceIte, pure, P.pure]
 
 /-- the rest of an `$INCLUDE` line with an origin -/
-theorem incl_rest_origin (ctx : Ctx) (line0 : Nat) (path : List UInt8) (sep2 : List UInt8) (hne : sep2 ≠ [])
-    (hsep : ∀ x ∈ sep2, isWs x = true) (T w : List UInt8) (k : Nat) (hn : NameTextOK ctx.origin T w k)
-    (ws cmt : List UInt8) (crlf : Bool) (r : List UInt8) (hws : ∀ x ∈ ws, isWs x = true) (hc : commentOK cmt)
-    (line : Nat) :
+theorem incl_rest_origin (ctx : Ctx) (line0 : Nat) (path : List UInt8) (g2 : PGap) (q1 q2 : Bool)
+    (h2 : GapOK g2 q1 q2) (T w : List UInt8) (k : Nat) (hn : NameTextOK ctx.origin T w k)
+    (tg : PGap) (cmt : List UInt8) (hT : TailOK tg cmt q2) (eol : PEol) (r : List UInt8) (he : eol = .eof → r = []) (line : Nat) :
     (do
         if (← skipToNextFieldOrThroughEol) == .Eol then pure (Item.incl line0 path ctx.origin)
         else
           let origin ← pName ctx
           expectEol
           pure (Item.incl line0 path (some origin)) : P Item)
-        ⟨sep2 ++ (T ++ (ws ++ (cmt ++ (eolText crlf ++ r)))), line, false⟩ =
-      .ok (.incl line0 path (some w), ⟨r, line + k + 1, false⟩) := by
-  obtain ⟨c, t, hct, hcs⟩ := hn.starts.append (ws ++ (cmt ++ (eolText crlf ++ r)))
-  have hEnd := atFieldEnd_eolG ws cmt hws hc crlf r
+        ⟨gapText g2 ++ (T ++ (tailText tg cmt eol ++ r)), line, q1⟩ =
+      .ok (.incl line0 path (some w), ⟨r, line + gapLines g2 + k + gapLines tg + eolLines eol, false⟩) := by
+  have hEnd := atFieldEnd_tail tg cmt q2 hT eol r he
   have hb : ((FieldOrEol.Field == FieldOrEol.Eol) = true) = False := by simp
-  simp only [bind, P.bind, skipToNextFieldOrThroughEol, hct, fieldOrEol_gap true sep2 hsep c t hcs line false, hb,
-    ↓reduceIte]
-  rw [← hct]
-  simp only [pName, hn.parse _ line false hEnd, expectEol_eolG ws cmt hws hc crlf r, pure, P.pure]
+  simp only [bind, P.bind, skipToNextFieldOrThroughEol,
+    fieldOrEol_gapG true g2 q1 q2 h2.wf h2.run _ (hn.starts.append (tailText tg cmt eol ++ r)) line, hb,
+    ↓reduceIte, pName, hn.parse _ _ _ hEnd, expectEol_tail tg cmt q2 hT eol r he, pure, P.pure]
 
 /-! ### whole files -/
 
@@ -617,19 +614,43 @@ theorem next_of_untilData {ctx ctx' : Ctx} {st st' : St} {i : Item}
 
 /-- well-formed presentation of an entry -/
 def WFEntry : PEntry → Prop
-  | .blank ws cmt _ => (∀ x ∈ ws, isWs x = true) ∧ commentOK cmt
+  | .blank ws cmt eol => (∀ x ∈ ws, isWs x = true) ∧ commentOK cmt ∧ ws ++ cmt ++ lineEnd eol ≠ []
   | .record p => WFRecord p
-  | .origin ls sep trail cmt _ =>
-    WFName (.abs ls) ∧ sep ≠ [] ∧ (∀ x ∈ sep, isWs x = true) ∧ (∀ x ∈ trail, isWs x = true) ∧ commentOK cmt
-  | .ttl n sep trail cmt _ =>
-    n ≤ 4294967295 ∧ sep ≠ [] ∧ (∀ x ∈ sep, isWs x = true) ∧ (∀ x ∈ trail, isWs x = true) ∧ commentOK cmt
-  | .incl path origin sep sep2 trail cmt _ =>
-    WFPath path ∧ (∀ n, origin = some n → WFName n ∧ sep2 ≠ [] ∧ ∀ x ∈ sep2, isWs x = true) ∧
-      sep ≠ [] ∧ (∀ x ∈ sep, isWs x = true) ∧ (∀ x ∈ trail, isWs x = true) ∧ commentOK cmt
+  | .origin ls gap tail cmt _ =>
+    WFName (.abs ls) ∧ ∃ q1, GapOK gap false q1 ∧ TailOK tail cmt q1
+  | .ttl n gap tail cmt _ =>
+    n ≤ 4294967295 ∧ ∃ q1, GapOK gap false q1 ∧ TailOK tail cmt q1
+  | .incl path origin gap gap2 tail cmt _ =>
+    WFPath path ∧ ∃ q1 q2, GapOK gap false q1 ∧
+      (∀ n, origin = some n → WFName n ∧ GapOK gap2 q1 q2) ∧ (origin = none → q2 = q1) ∧ TailOK tail cmt q2
 
 def itemOf : SItem → Yield
   | .record sr => .item (.record sr.line ⟨sr.owner, sr.ttl, sr.cls, sr.ty, sr.rdata⟩)
   | .incl line path origin => .item (.incl line path origin)
+
+/-- how an entry's (last) line ends -/
+def entryEol : PEntry → PEol
+  | .blank _ _ eol => eol
+  | .record p => p.eol
+  | .origin _ _ _ _ eol => eol
+  | .ttl _ _ _ _ eol => eol
+  | .incl _ _ _ _ _ _ eol => eol
+
+/-- only the last line of a file may end with the file -/
+def EolsOK : List PEntry → Prop
+  | [] => True
+  | e :: es => (entryEol e = .eof → es = []) ∧ EolsOK es
+
+theorem denote_line_fix {es : List PEntry} {c : SCtx} {L : Nat} {eol : PEol} {rest : List SItem}
+    (he : eol = .eof → es = []) (h : denoteFile validB es c (L + 1) = some rest) :
+    denoteFile validB es c (L + eolLines eol) = some rest := by
+  cases eol with
+  | lf => exact h
+  | crlf => exact h
+  | eof =>
+    have := he rfl
+    subst this
+    simpa [denoteFile] using h
 
 /-- stepping over a line that yields nothing, in the run -/
 theorem collect_skip {ctx ctx' : Ctx} (hctx : CtxWF ctx) {text R : List UInt8} {line line' : Nat}
@@ -646,7 +667,7 @@ theorem collect_skip {ctx ctx' : Ctx} (hctx : CtxWF ctx) {text R : List UInt8} {
 /-- **Whole files of the subset.**  A file of well-formed entries that denotes the records `srs`
     (all with RDATA valid for class and type) parses to exactly those records, in order, with
     their line numbers — from any well-formed context and line. -/
-theorem collect_file (es : List PEntry) (hwf : ∀ e ∈ es, WFEntry e) (ctx : Ctx) (hctx : CtxWF ctx)
+theorem collect_file (es : List PEntry) (hwf : ∀ e ∈ es, WFEntry e) (heols : EolsOK es) (ctx : Ctx) (hctx : CtxWF ctx)
     (line : Nat) (srs : List SItem) (hden : denoteFile validB es (toSCtx ctx) line = some srs) :
     collect ⟨false, ⟨renderFile es, line, false⟩, ctx⟩ = srs.map itemOf := by
   induction es generalizing ctx line srs with
@@ -658,115 +679,132 @@ theorem collect_file (es : List PEntry) (hwf : ∀ e ∈ es, WFEntry e) (ctx : C
   | cons e es ih =>
     have hwf' : ∀ e' ∈ es, WFEntry e' := fun e' h' => hwf e' (by simp [h'])
     have hrf : renderFile (e :: es) = renderEntry e ++ renderFile es := by simp [renderFile]
+    obtain ⟨heol, heols'⟩ := heols
+    have hefile : entryEol e = .eof → renderFile es = [] := fun h => by rw [heol h]; rfl
     cases e with
-    | blank ws cmt crlf =>
-      obtain ⟨hws, hcmt⟩ := hwf (.blank ws cmt crlf) (by simp)
+    | blank ws cmt eol =>
+      simp only [entryEol] at heol hefile
+      obtain ⟨hws, hcmt, hnonempty⟩ := hwf (.blank ws cmt eol) (by simp)
       simp only [denoteFile] at hden
-      have hline := parseLine_blank ctx ws cmt crlf (renderFile es) hws hcmt line
-      have htext : renderFile (.blank ws cmt crlf :: es) = (ws ++ cmt ++ eolText crlf) ++ renderFile es := by
+      have hne0 : ws ++ (cmt ++ (lineEnd eol ++ renderFile es)) ≠ [] := by
+        intro h; apply hnonempty; simp at h ⊢; exact ⟨h.1, h.2.1, h.2.2.1⟩
+      have hline := parseLine_blank ctx ws cmt eol (renderFile es) hws hcmt hefile hne0 line
+      have htext : renderFile (.blank ws cmt eol :: es) = (ws ++ cmt ++ lineEnd eol) ++ renderFile es := by
         simp [hrf, renderEntry]
       rw [htext]
-      have hline' : parseLine ctx ⟨(ws ++ cmt ++ eolText crlf) ++ renderFile es, line, false⟩ =
-          .ok ((none, ctx), ⟨renderFile es, line + 1, false⟩) := by
-        have e : (ws ++ cmt ++ eolText crlf) ++ renderFile es = ws ++ (cmt ++ (eolText crlf ++ renderFile es)) := by simp
+      have hline' : parseLine ctx ⟨(ws ++ cmt ++ lineEnd eol) ++ renderFile es, line, false⟩ =
+          .ok ((none, ctx), ⟨renderFile es, line + eolLines eol, false⟩) := by
+        have e : (ws ++ cmt ++ lineEnd eol) ++ renderFile es = ws ++ (cmt ++ (lineEnd eol ++ renderFile es)) := by simp
         rw [e]; exact hline
-      obtain ⟨hc, _⟩ := collect_skip hctx hline' (by simp)
+      obtain ⟨hc, _⟩ := collect_skip hctx hline' hnonempty
       rw [hc]
-      exact ih hwf' ctx hctx (line + 1) srs hden
-    | origin ls sep trail cmt crlf =>
-      obtain ⟨hls, hne, hsep, htrail, hcmt⟩ := hwf (.origin ls sep trail cmt crlf) (by simp)
+      exact ih hwf' heols' ctx hctx _ srs (denote_line_fix heol hden)
+    | origin ls gap tail cmt eol =>
+      simp only [entryEol] at heol hefile
+      obtain ⟨hls, q1, h1, hT⟩ := hwf (.origin ls gap tail cmt eol) (by simp)
       simp only [denoteFile] at hden
-      have hline := parseLine_origin ctx ls hls sep trail cmt crlf (renderFile es) hne hsep htrail hcmt line
-      have htext : renderFile (.origin ls sep trail cmt crlf :: es) =
-          ([36, 79, 82, 73, 71, 73, 78] ++ sep ++ renderAbsName ls ++ trail ++ cmt ++ eolText crlf) ++ renderFile es := by
-        simp [hrf, renderEntry]
+      have hline := parseLine_origin ctx ls hls gap q1 h1 tail cmt hT eol (renderFile es) hefile line
+      have htext : renderFile (.origin ls gap tail cmt eol :: es) =
+          ([36, 79, 82, 73, 71, 73, 78] ++ (gapText gap ++ (renderAbsName ls ++ tailText tail cmt eol))) ++ renderFile es := by
+        simp [hrf, renderEntry, tailText]
       rw [htext]
       have hline' : parseLine ctx
-          ⟨([36, 79, 82, 73, 71, 73, 78] ++ sep ++ renderAbsName ls ++ trail ++ cmt ++ eolText crlf) ++ renderFile es, line, false⟩ =
+          ⟨([36, 79, 82, 73, 71, 73, 78] ++ (gapText gap ++ (renderAbsName ls ++ tailText tail cmt eol))) ++ renderFile es, line, false⟩ =
           .ok ((none, { ctx with origin := some (wireName (ls.map labelOctets)) }),
-            ⟨renderFile es, line + labelLines ls + 1, false⟩) := by
-        have e : ([36, 79, 82, 73, 71, 73, 78] ++ sep ++ renderAbsName ls ++ trail ++ cmt ++ eolText crlf) ++ renderFile es =
-            [36, 79, 82, 73, 71, 73, 78] ++ (sep ++ (renderAbsName ls ++ (trail ++ (cmt ++ (eolText crlf ++ renderFile es))))) := by
+            ⟨renderFile es, line + gapLines gap + labelLines ls + gapLines tail + eolLines eol, false⟩) := by
+        have e : ([36, 79, 82, 73, 71, 73, 78] ++ (gapText gap ++ (renderAbsName ls ++ tailText tail cmt eol))) ++ renderFile es =
+            [36, 79, 82, 73, 71, 73, 78] ++ (gapText gap ++ (renderAbsName ls ++ (tailText tail cmt eol ++ renderFile es))) := by
           simp
         rw [e]; exact hline
       obtain ⟨hc, hctx'⟩ := collect_skip hctx hline' (by simp)
       rw [hc]
-      exact ih hwf' _ hctx' _ srs hden
-    | ttl n sep trail cmt crlf =>
-      obtain ⟨hn, hne, hsep, htrail, hcmt⟩ := hwf (.ttl n sep trail cmt crlf) (by simp)
+      exact ih hwf' heols' _ hctx' _ srs (denote_line_fix heol hden)
+    | ttl n gap tail cmt eol =>
+      simp only [entryEol] at heol hefile
+      obtain ⟨hn, q1, h1, hT⟩ := hwf (.ttl n gap tail cmt eol) (by simp)
       simp only [denoteFile] at hden
-      have hline := parseLine_ttl ctx n hn sep trail cmt crlf (renderFile es) hne hsep htrail hcmt line
-      have htext : renderFile (.ttl n sep trail cmt crlf :: es) =
-          ([36, 84, 84, 76] ++ sep ++ decimal n ++ trail ++ cmt ++ eolText crlf) ++ renderFile es := by
-        simp [hrf, renderEntry]
+      have hline := parseLine_ttl ctx n hn gap q1 h1 tail cmt hT eol (renderFile es) hefile line
+      have htext : renderFile (.ttl n gap tail cmt eol :: es) =
+          ([36, 84, 84, 76] ++ (gapText gap ++ (decimal n ++ tailText tail cmt eol))) ++ renderFile es := by
+        simp [hrf, renderEntry, tailText]
       rw [htext]
       have hline' : parseLine ctx
-          ⟨([36, 84, 84, 76] ++ sep ++ decimal n ++ trail ++ cmt ++ eolText crlf) ++ renderFile es, line, false⟩ =
-          .ok ((none, { ctx with defaultTtl := some (ttlFrom n) }), ⟨renderFile es, line + 1, false⟩) := by
-        have e : ([36, 84, 84, 76] ++ sep ++ decimal n ++ trail ++ cmt ++ eolText crlf) ++ renderFile es =
-            [36, 84, 84, 76] ++ (sep ++ (decimal n ++ (trail ++ (cmt ++ (eolText crlf ++ renderFile es))))) := by simp
+          ⟨([36, 84, 84, 76] ++ (gapText gap ++ (decimal n ++ tailText tail cmt eol))) ++ renderFile es, line, false⟩ =
+          .ok ((none, { ctx with defaultTtl := some (ttlFrom n) }),
+            ⟨renderFile es, line + gapLines gap + gapLines tail + eolLines eol, false⟩) := by
+        have e : ([36, 84, 84, 76] ++ (gapText gap ++ (decimal n ++ tailText tail cmt eol))) ++ renderFile es =
+            [36, 84, 84, 76] ++ (gapText gap ++ (decimal n ++ (tailText tail cmt eol ++ renderFile es))) := by simp
         rw [e]; exact hline
       obtain ⟨hc, hctx'⟩ := collect_skip hctx hline' (by simp)
       rw [hc]
-      exact ih hwf' _ hctx' _ srs (by simpa [toSCtx, ttlFrom, ttlValue] using hden)
-    | incl path origin sep sep2 trail cmt crlf =>
-      obtain ⟨hpath, horig, hne, hsep, htrail, hcmt⟩ := hwf (.incl path origin sep sep2 trail cmt crlf) (by simp)
+      exact ih hwf' heols' _ hctx' _ srs (denote_line_fix heol (by simpa [toSCtx, ttlFrom, ttlValue] using hden))
+    | incl path origin sep sep2 trail cmt eol =>
+      simp only [entryEol] at heol hefile
+      obtain ⟨hpath, q1, q2, h1, horig, hq, hT⟩ := hwf (.incl path origin sep sep2 trail cmt eol) (by simp)
       -- once the line is evaluated: the request, then the rest of the file
       have fin : ∀ (o : Option (List UInt8)) (line' : Nat) (rest : List SItem),
-          parseLine ctx ⟨renderEntry (.incl path origin sep sep2 trail cmt crlf) ++ renderFile es, line, false⟩ =
+          parseLine ctx ⟨renderEntry (.incl path origin sep sep2 trail cmt eol) ++ renderFile es, line, false⟩ =
             .ok ((some (.incl line (stringOctets path) o), ctx), ⟨renderFile es, line', false⟩) →
           denoteFile validB es (toSCtx ctx) line' = some rest →
-          collect ⟨false, ⟨renderFile (.incl path origin sep sep2 trail cmt crlf :: es), line, false⟩, ctx⟩ =
+          collect ⟨false, ⟨renderFile (.incl path origin sep sep2 trail cmt eol :: es), line, false⟩, ctx⟩ =
             (SItem.incl line (stringOctets path) o :: rest).map itemOf := by
         intro o line' rest hline hrest
-        have hne' : renderEntry (.incl path origin sep sep2 trail cmt crlf) ++ renderFile es ≠ [] := by
+        have hne' : renderEntry (.incl path origin sep sep2 trail cmt eol) ++ renderFile es ≠ [] := by
           simp [renderEntry]
-        have hu : untilData ctx ⟨renderEntry (.incl path origin sep sep2 trail cmt crlf) ++ renderFile es, line, false⟩ =
+        have hu : untilData ctx ⟨renderEntry (.incl path origin sep sep2 trail cmt eol) ++ renderFile es, line, false⟩ =
             .ok ((some (.incl line (stringOctets path) o), ctx), ⟨renderFile es, line', false⟩) := by
           rw [untilData]
-          cases hw : renderEntry (.incl path origin sep sep2 trail cmt crlf) ++ renderFile es with
+          cases hw : renderEntry (.incl path origin sep sep2 trail cmt eol) ++ renderFile es with
           | nil => exact absurd hw hne'
           | cons c t => simp only; rw [← hw, hline]
         rw [hrf]
         have hnext := next_of_untilData hu
-        have g := next_spec (p := ⟨false, ⟨renderEntry (.incl path origin sep sep2 trail cmt crlf) ++ renderFile es, line, false⟩, ctx⟩) hctx
+        have g := next_spec (p := ⟨false, ⟨renderEntry (.incl path origin sep sep2 trail cmt eol) ++ renderFile es, line, false⟩, ctx⟩) hctx
         rw [hnext] at g
         rw [collect_item hnext g.2.2]
         simp only [List.map_cons, itemOf]
         congr 1
-        exact ih hwf' ctx g.2.1 _ rest hrest
+        exact ih hwf' heols' ctx g.2.1 _ rest hrest
       cases origin with
       | none =>
+        have hq' := hq rfl
+        subst hq'
         simp only [denoteFile, bind, Option.bind, Nat.add_zero] at hden
-        cases hrest : denoteFile validB es (toSCtx ctx) (line + stringLines path + 1) with
+        cases hrest : denoteFile validB es (toSCtx ctx) (line + gapLines sep + stringLines path + gapLines trail + 1) with
         | none => simp [hrest] at hden
         | some rest =>
           simp only [hrest, pure, Option.some.injEq] at hden
           subst hden
-          have hr := incl_rest_plain ctx line (stringOctets path) trail cmt crlf (renderFile es) htrail hcmt
-            (line + stringLines path)
-          have := parseLine_incl ctx path hpath sep hne hsep _ (atFieldEnd_eolG trail cmt htrail hcmt crlf (renderFile es))
+          have hr := incl_rest_plain ctx line (stringOctets path) trail cmt q2 hT eol (renderFile es) hefile
+            (line + gapLines sep + stringLines path)
+          have := parseLine_incl ctx path hpath sep q2 h1 _ (atFieldEnd_tail trail cmt q2 hT eol (renderFile es) hefile)
             line ctx.origin (renderFile es) _ hr
-          exact fin ctx.origin _ rest (by simpa [renderEntry] using this) hrest
+          exact fin ctx.origin _ rest (by simpa [renderEntry, tailText] using this) (denote_line_fix heol hrest)
       | some n =>
-        obtain ⟨hn, hne2, hsep2⟩ := horig n rfl
+        obtain ⟨hn, h2⟩ := horig n rfl
         simp only [denoteFile, bind, Option.bind] at hden
         cases hw : nameWire (toSCtx ctx).origin n with
         | none => simp [hw] at hden
         | some w =>
           simp only [hw, Option.map_some] at hden
-          cases hrest : denoteFile validB es (toSCtx ctx) (line + stringLines path + nameLines n + 1) with
+          cases hrest : denoteFile validB es (toSCtx ctx)
+              (line + gapLines sep + stringLines path + (gapLines sep2 + nameLines n) + gapLines trail + 1) with
           | none => simp [hrest] at hden
           | some rest =>
             simp only [hrest, pure, Option.some.injEq] at hden
             subst hden
             have hnt := nameText_ok ctx.origin hctx.1 n hn w hw
-            have hr := incl_rest_origin ctx line (stringOctets path) sep2 hne2 hsep2 (nameText n) w (nameLines n) hnt
-              trail cmt crlf (renderFile es) htrail hcmt (line + stringLines path)
-            have := parseLine_incl ctx path hpath sep hne hsep _ (atFieldEnd_sep sep2 _ hne2 hsep2)
+            have hr := incl_rest_origin ctx line (stringOctets path) sep2 q1 q2 h2 (nameText n) w (nameLines n) hnt
+              trail cmt hT eol (renderFile es) hefile (line + gapLines sep + stringLines path)
+            have := parseLine_incl ctx path hpath sep q1 h1 _ (h2.atEnd _)
               line (some w) (renderFile es) _ hr
-            exact fin (some w) _ rest (by simpa [renderEntry] using this) hrest
+            refine fin (some w) _ rest (by simpa [renderEntry, tailText] using this) ?_
+            have := denote_line_fix heol hrest
+            rw [← this]
+            congr 1
+            omega
     | record p =>
+      simp only [entryEol] at heol hefile
       have hp := hwf (.record p) (by simp)
       simp only [denoteFile, bind, Option.bind] at hden
       cases hd : denoteRecord validB (toSCtx ctx) line p with
@@ -779,13 +817,19 @@ theorem collect_file (es : List PEntry) (hwf : ∀ e ∈ es, WFEntry e) (ctx : C
         | some rest =>
           simp only [hrest, pure, Option.some.injEq] at hden
           subst hden
-          obtain ⟨ctx', hline, hsc⟩ := parseLine_record ctx hctx p hp line (renderFile es) sr sc' hd
+          obtain ⟨ctx', hline, hsc⟩ := parseLine_record ctx hctx p hp line (renderFile es) hefile sr sc' hd
           have htext : renderFile (.record p :: es) = renderRecord p ++ renderFile es := by
             simp [hrf, renderEntry]
-          have hne : renderRecord p ++ renderFile es ≠ [] := by simp [renderRecord]
+          have hne : renderRecord p ++ renderFile es ≠ [] := by
+            intro h
+            have hty := (typeText_ok p.ty hp.ty_ok.1).field.ne
+            have hpos : 0 < (typeText p.ty).length := List.length_pos_iff.mpr hty
+            have hl := congrArg List.length h
+            simp only [renderRecord, List.length_append, List.length_nil] at hl
+            omega
           have hu : untilData ctx ⟨renderRecord p ++ renderFile es, line, false⟩ =
               .ok ((some (.record sr.line ⟨sr.owner, sr.ttl, sr.cls, sr.ty, sr.rdata⟩), ctx'),
-                ⟨renderFile es, line + recordLines p + 1, false⟩) := by
+                ⟨renderFile es, line + recordLines p + eolLines p.eol, false⟩) := by
             rw [untilData]
             cases hw : renderRecord p ++ renderFile es with
             | nil => exact absurd hw hne
@@ -797,6 +841,6 @@ theorem collect_file (es : List PEntry) (hwf : ∀ e ∈ es, WFEntry e) (ctx : C
           rw [collect_item hnext g.2.2]
           simp only [List.map_cons, itemOf]
           congr 1
-          exact ih hwf' ctx' g.2.1 _ rest (by rw [hsc]; exact hrest)
+          exact ih hwf' heols' ctx' g.2.1 _ rest (by rw [hsc]; exact denote_line_fix heol hrest)
 
 end QV.ZF
